@@ -281,6 +281,7 @@ def strat_ts(draw):
             "ratio": draw(st.one_of(st.integers(2, 60).map(float), st.floats(2.0, 60.0, allow_nan=False))),
             "accel": draw(st.one_of(st.just(0.0), st.floats(1.0, 1e5), st.floats(-1e5, -1.0))),
             "amp_exp": draw(st.sampled_from([0, 0, -20, 20, -40])),
+            "hdr_accel": draw(st.sampled_from([0.0, 0.0, 5.0e5, -2.0e6, 8.0e4])), "hdr_period": draw(st.sampled_from([0.0, 0.0123])),
             "tsamp": draw(st.sampled_from([2.0**-10, 2.0**-10, 64e-6, 1e-3, 0.000327, 81.92e-6])),
             # further trial periods folded on the SAME TimeSeries object with the same cube shape (a period search)
             "more_ratios": draw(st.lists(st.one_of(st.integers(2, 60).map(float), st.floats(2.0, 60.0, allow_nan=False)), min_size=0, max_size=2))}
@@ -295,7 +296,8 @@ def check_ts(case, ctx):
     x = (x * np.float32(2.0 ** case.get("amp_exp", 0))).astype(np.float32)  # the unit of the data is arbitrary (exact scaling)
     TS = case.get("tsamp", TSAMP)
     hdr = Header(filename="t.tim", data_type="time series", nchans=1, foff=-1.0, fch1=1400.0, nbits=32, tsamp=TS,
-                 tstart=55000.0, nsamples=N, dm=12.5)
+                 tstart=55000.0, nsamples=N, dm=12.5, accel=case.get("hdr_accel", 0.0), period=case.get("hdr_period", 0.0))
+    # the header may carry an acceleration/period from earlier processing (e.g. resample): the fold uses its arguments
     ts = TimeSeries(x, hdr)
     ratios = [case["ratio"]] + list(case.get("more_ratios", []))
     earlier = []
